@@ -60,6 +60,15 @@ def check_doubling(case):
     same(out.array, np.transpose(D, order), "mixed-is-doubled-pure",
          common.show(d))
     same(out.array, qsem.cq_eval(spec), "mixed-vs-reference", common.show(d))
+    # measure(): Born rule on the outputs of Ket(0...0) >> d, post-selected
+    # circuits without outputs included; with mixed=True the outputs are
+    # discarded instead and the total weight is left
+    amps = np.asarray(qsem.pure_eval(init_pure(spec)), dtype=complex)
+    same(np.asarray(d.measure()).reshape(-1), (np.abs(amps) ** 2).reshape(-1),
+         "measure-born-rule", common.show(d))
+    same(np.asarray(d.measure(mixed=True)).reshape(-1),
+         np.array([np.sum(np.abs(amps) ** 2)]), "measure-mixed-total-weight",
+         common.show(d))
     return dict(nt=len(spec["layers"]) >= 2 and nd + nc >= 1,
                 labels=["w%d" % (nd + nc)], show=common.show(d, 200))
 
